@@ -190,16 +190,20 @@ class HComp(workflow.ComponentState):
 
 
 class _StubObservable(object):
-    def __init__(self, comp, kind):
+    """Stands for ComponentState.notifyFinished / notifyPostMortem: records (operators, callbacks) per subscription;
+    the scheduler harness later feeds emissions through the *real* rx operators synchronously."""
+
+    def __init__(self, comp, kind, ops=()):
         self.comp = comp
         self.kind = kind
+        self.ops = tuple(ops)
 
     def pipe(self, *ops):
-        return self
+        return _StubObservable(self.comp, self.kind, self.ops + tuple(ops))
 
     def subscribe(self, on_next=None, on_error=None, on_completed=None):
         if self.comp.sched is not None:
-            self.comp.sched.on_subscribe(self.comp, self.kind, on_next)
+            self.comp.sched.on_subscribe(self.comp, self.kind, on_next, self.ops, on_error)
         elif self.kind == 'postmortem':
             self.comp.pm_subscribers.append(on_next)
         return None
